@@ -15,12 +15,15 @@ import Driver.Faults
 import Driver.Block
 import Driver.C18
 import Driver.CafW64
+import Driver.WavexRf64
 import Driver.Routes
 import Driver.World
 import Driver.Aiff
+import Driver.Small2
 import Driver.Ledger
 import Driver.Meta
 import Driver.Ieee
+import Driver.Dwvw
 open Sf
 
 def lawOf (s : String) : Option G711.Law :=
@@ -80,10 +83,14 @@ def main (args : List String) : IO UInt32 := do
   | "c18" :: rest => C18Driver.main rest
   | "caf" :: rest => CafW64Driver.cafCmd rest
   | "w64" :: rest => CafW64Driver.w64Cmd rest
+  | "wavex" :: rest => WavexRf64Driver.wavexCmd rest
+  | "rf64" :: rest => WavexRf64Driver.rf64Cmd rest
   | "routes" :: rest => RoutesDriver.cmd rest
   | "world" :: rest => WorldDriver.cmd rest
   | "aiff" :: rest => Driver.Aiff.cmd rest
+  | "small2" :: rest => Driver.Small2.cmd rest
   | "ledger" :: _ => LedgerDriver.cmd
   | "meta" :: rest => do MetaCmd.run rest (← readLines)
   | "ieee" :: rest => Driver.Ieee.cmd rest
+  | "dwvw" :: rest => Driver.Dwvw.cmd rest
   | _ => IO.eprintln "usage: sfmodel <g711|...> ..."; return 2
